@@ -271,9 +271,23 @@ def run_unit(unit, rng, ctx):
                 if not cands:
                     continue
                 other = cands[int(rng.integers(len(cands)))]
+                requery = bool(rng.integers(2))
+                if requery:
+                    # derived quantities are asked before the object grows ...
+                    _ = (o.mean_squared_displacement(), o.distances_from_base_position(), o.cumulative_displacements)
                 o.extend(other.obj)
                 live.P = np.concatenate([live.P, other.P], axis=0)
                 desc = f'extend(<{other.origin}>)'
+                if requery:
+                    # ... and again afterwards: they describe the frames the object holds now
+                    steps2 = np.diff(live.P, axis=0, prepend=live.P[:1])
+                    steps2 = steps2 - np.round(steps2)
+                    cum2 = np.cumsum(steps2, axis=0)
+                    hist_x = hist + [f'{live.origin}: msd/distances/cumulative, {desc}']
+                    for nm_, got_, want_ in (('mean_squared_displacement()', o.mean_squared_displacement(), models.msd_model(cum2 @ m)), ('distances_from_base_position()', o.distances_from_base_position(), np.linalg.norm(cum2 @ m, axis=2).T), ('cumulative_displacements', o.cumulative_displacements, cum2)):
+                        got_ = np.asarray(got_)
+                        ctx.check(got_.shape == want_.shape and float(np.abs(got_ - want_).max() if got_.size else 0.0) <= 1e-9 * max(1.0, float(np.abs(want_).max()) if want_.size else 1.0), f'after {hist_x}: {nm_} of "{live.origin}" (shape {got_.shape}) is not what its frames give after it was extended (shape {want_.shape})', {'history': hist_x})
+                    ctx.count('requery_of_derived_quantities_after_extend')
                 deriv_in_disp_mode += disp_mode
         except Exception as exc:  # noqa: BLE001
             import traceback
